@@ -80,10 +80,17 @@ def resolve_thresholds(h, ctx):
         if op[0] == "upd" and isinstance(op[2], tuple):
             mag = sorted(set(float(v) for v in S.mags_of(model, op[4])))
             u = op[2][1]
-            if u < 0.15:
+            pick = mag[int(u * 997) % len(mag)]
+            if u < 0.12:
                 tau = 0.0
-            elif u < 0.5 or len(mag) < 2:
-                tau = mag[int(u * 997) % len(mag)]                      # exact boundary: `>=` vs `>` decided
+            elif u < 0.4 or len(mag) < 2:
+                tau = pick                                              # exact boundary: `>=` vs `>` decided
+            elif u < 0.52:
+                tau = float(np.nextafter(pick, np.inf))                 # one ulp above a magnitude: that sensor is out
+            elif u < 0.6:
+                tau = float(np.nextafter(pick, -np.inf)) if pick > 0 else 0.0   # one ulp below: that sensor is in
+            elif u < 0.68:
+                tau = [1e-10, 1e-300, 5e-324, 1e-8][int(u * 9973) % 4]   # tiny positive thresholds: zeros stay out
             elif u < 0.9:
                 i = int(u * 997) % (len(mag) - 1)
                 tau = (mag[i] + mag[i + 1]) / 2
